@@ -289,6 +289,8 @@ func ruleSamplingSwitch(r *Run, p *Prog) {
 		r.Ob("SWITCH", "samplingDisabled/test", p.Pos(sd.Pos()), false, true, "samplingDisabled() is not `atomic load == constant`")
 		return
 	}
+	ds = p.View(ds, "", nil)
+	sd = p.View(sd, "", nil)
 	paths, _ := enumPaths(ds, 1, 100)
 	for i, pa := range paths {
 		var stored ssa.Value
